@@ -26,15 +26,25 @@ tvars == <<reg, out, l, drift, ctfail>>
 
 Trace == ndJsonDeserialize("trace.ndjson")
 
+\* Where a record counts as registered: under the owner+serial its store key names (ko, ks: decoded by the
+\* harness from the raw key by the documented layout), or, when the key follows some other layout ("?"), under
+\* the owner+serial of the certificate it holds. A record that holds a certificate of another owner / serial
+\* than the place it is registered under has body Foreign.
+PlaceOf(e) == IF e.ko # "?" /\ e.ks # "?" THEN <<e.ko, e.ks>> ELSE <<e.o, e.s>>
+
 RegOf(ents) ==
     [o \in Owners |-> [s \in Serials |->
-        LET m == {i \in DOMAIN ents : ents[i].o = o /\ ents[i].s = s} IN
+        LET m == {i \in DOMAIN ents : PlaceOf(ents[i]) = <<o, s>>} IN
         IF m = {} THEN NoEntry
-        ELSE LET i == CHOOSE i \in m : \A j \in m : i <= j IN [st |-> ents[i].st, b |-> ents[i].b]]]
+        ELSE LET i == CHOOSE i \in m : \A j \in m : i <= j IN
+             [st |-> ents[i].st, b |-> IF <<ents[i].o, ents[i].s>> = <<o, s>> THEN ents[i].b ELSE Foreign]]]
 
-\* "at most once per owner and serial": no two store records hold a certificate of the same owner and serial
+\* "at most once per owner and serial": no two store records hold a certificate of the same owner and serial,
+\* no two are registered under the same owner and serial, and each holds the certificate of its place
 ProjUnique(ents) ==
-    \A i \in DOMAIN ents, j \in DOMAIN ents : (ents[i].o = ents[j].o /\ ents[i].s = ents[j].s) => i = j
+    /\ \A i \in DOMAIN ents, j \in DOMAIN ents :
+          (ents[i].o = ents[j].o /\ ents[i].s = ents[j].s) \/ PlaceOf(ents[i]) = PlaceOf(ents[j]) => i = j
+    /\ \A i \in DOMAIN ents : PlaceOf(ents[i]) = <<ents[i].o, ents[i].s>>
 
 ActOf(e) == [k |-> e.ev, signer |-> e.signer, mo |-> e.mo, o |-> e.o, s |-> e.s, b |-> e.b, ok |-> e.ok]
 
@@ -91,6 +101,8 @@ Fail(name, i) == PrintT(<<"QFAIL", name, l, i>>) /\ FALSE
 T_Unique == l > 0 => ProjUnique(Trace[l].reg)
 T_ListingsTotal ==
     l > 0 => \A i \in DOMAIN Trace[l].q : QTotal(Trace[l].q[i]) \/ Fail("ListingsTotal", i)
+T_LookupExact ==
+    l > 0 => \A i \in DOMAIN Trace[l].q : QLookupExact(reg, Trace[l].q[i]) \/ Fail("LookupExact", i)
 T_ListingComplete ==
     l > 0 => \A i \in DOMAIN Trace[l].q :
                 IsCT(Trace[l].q[i]) \/ QComplete(reg, Trace[l].q[i]) \/ Fail("ListingComplete", i)
